@@ -296,6 +296,23 @@ func c20Calls(thorough bool) []jcall {
 				}
 			}
 		}
+		// every LENGTH of the submitted code, 0..14 characters and a long one, cut from the genuine code repeated; single
+		// characters of every kind (the binding logs, masks and compares what it is given)
+		if si == 0 {
+			base := ref.HOTP(c20Key, 5, 6, 0)
+			long := strings.Repeat(base, 700)
+			var codes []string
+			for n := 0; n <= 14; n++ {
+				codes = append(codes, long[:n])
+			}
+			codes = append(codes, long, "x", " ", "\x00", "\u00e9", "7 ", "-1", "1e5", base+" ", " "+base)
+			for _, code := range codes {
+				for _, d := range []string{"6", "8"} {
+					add("validateHOTP", "validateHOTP", s, code, uint64(5), d, "SHA1", 1)
+					add("validateTOTP", "validateTOTP", s, code, int64(59), d, "SHA1", 1, int64(30))
+				}
+			}
+		}
 	}
 	// fractional numbers are truncated, not rounded and not rejected: every numeric argument at v+f, with v on
 	// and next to step / window boundaries
